@@ -32,6 +32,7 @@ def dispatch (j : Json) : Except String Json := do
   | "c08" => handleC08 j
   | "c04" => handleC04 j
   | "gendump" => handleGenDump j
+  | "gendumprun" => handleGenDumpRun j
   | x => throw s!"unknown op {x}"
 
 def handleLine (line : String) : String :=
